@@ -1,14 +1,57 @@
-"""C08 — external representations: C kernels of the native reader (UTF-8 character literals)."""
+"""C08 — external representations: native writer -> text -> native reader on in-memory ports for symbols and strings;
+UTF-8 character-literal decoder."""
 from vf import Query
 from common import R_ASSUME
 
 UNITS = ['kit:kitfull.c', 'kit:env.c', 'kit:exc_models.c', 'kit:libc_models.c']
 UD = {'KIT_REAL_SEXP': 1}
 EXC = ['sexp_alloc_tagged_aux', 'sexp_type_exception', 'sexp_xtype_exception', 'sexp_range_exception', 'sexp_user_exception', 'sexp_user_exception_ls']
-FUNCTIONS = ['sexp_decode_utf8_char', 'sexp_utf8_encode_char', 'sexp_utf8_char_byte_count']
+FUNCTIONS = ['sexp_decode_utf8_char', 'sexp_utf8_encode_char', 'sexp_utf8_char_byte_count', 'sexp_write_one (symbol, string cases)', 'sexp_read_raw', 'sexp_read_symbol', 'sexp_read_string', 'sexp_read_number (radix 16, string escapes)', 'sexp_buffered_read_char']
+
+
+# the written text of an atom never makes the tokeniser loop (leading blanks, comments, lists, #| |# ...): every loop and the
+# recursion of sexp_read_raw get bound 1-2, and the unwinding assertions make the solver prove that this suffices
+# number syntax must be unreachable from the text of a symbol/string/char (assert-false bodies: the solver proves it)
+NUMCUTS = ['sexp_read_number', 'sexp_read_float_tail', 'sexp_read_complex_tail', 'sexp_read_polar_tail', 'sexp_read_bignum', 'sexp_read_error', 'sexp_lookup_type', 'sexp_list_to_vector_op',
+           'sexp_list_to_uvector_op', 'sexp_make_ratio', 'sexp_ratio_normalize', 'sexp_make_complex', 'sexp_exact_to_inexact', 'sexp_make_flonum']
+# first byte of the name/string: one query per class of the tokeniser's dispatch (the other bytes are free)
+FIRST_Q = [ord(c) for c in ".+-0a#|(;\"'{i"] + [0x0a, 0x80]
+FIRST_T = FIRST_Q + [ord(c) for c in "\\ ,`}n@1e9N~!$%&*/:<=>?^_)[]"] + [0x01, 0x09, 0x0d, 0x1f, 0x7f, 0xc3, 0xe2, 0xf0, 0xff]
+# texts are at most 2+2N bytes: the libc copy loops (byte-wise models) get a bound just above that instead of the kit default
+SMALL_LIBC = {'memcpy.0': 12, 'memcpy.1': 12, 'memmove.0': 12, 'memmove.1': 12, 'memmove.2': 12, 'memmove.3': 12, 'memset.0': 12, 'memset.1': 12}
+RAW_LOOPS = {'sexp_read_raw.%d' % i: 2 for i in range(0, 30)}
 
 
 def queries(tier):
+    qs = _decode_queries(tier)
+    cap = 900 if tier == 'quick' else 2400
+    firsts = FIRST_Q if tier == 'quick' else FIRST_T
+    us = dict(RAW_LOOPS, **dict(SMALL_LIBC, **{'strlen.0': 8, 'harness.0': 50, 'harness.1': 50, 'read_back.0': 8, 'sexp_intern.0': 30, 'sexp_intern.1': 30, 'sexp_intern.2': 30, 'strcasecmp.0': 10, 'strncasecmp.0': 10, 'sexp_read_raw': 1, 'sexp_read_one': 1,
+                                               'sexp_write_one': 1, 'sexp_read_string.0': 2, 'sexp_read_string.1': 2, '__ctype_b_loc.0': 130}))
+
+    def pq(name, kind, n, first=None, numcuts=NUMCUTS, backends=('cadical',), extra_us=None, extra_defs=None):
+        defs = {'KINDSEL': kind, 'N': n, 'OBUF': 4 + 4 * max(n, 1) + 4}
+        if first is not None:
+            defs['FIRST'] = '0x%02x' % first
+            if first <= 32 or chr(first) in '#;\'()",`{}|\\' or first == 127:
+                defs['MUSTQUOTE'] = 1
+        defs.update(extra_defs or {})
+        qs.append(Query(name=name, harness='C08_port.c', units=UNITS, unit_defs=dict(UD, KIT_MAX_bytes=8, KIT_MAX_symbol=8), defs=defs, unwind=4 * max(n, 1) + 4,
+                        unwindset=dict(us, **dict({'sexp_read_string.2': n + 2, 'sexp_read_symbol.0': n + 2}, **(extra_us or {}))), remove_bodies=EXC + ['sexp_intern'], cuts=['sexp_buffered_flush'] + numcuts, cap=cap,
+                        backends=list(backends), flags=['--slice-formula'], functions=['sexp_write_one', 'sexp_read_raw', 'sexp_read_symbol', 'sexp_read_string']))
+    for n in ((2,) if tier == 'quick' else (2, 3)):
+        for f in firsts:
+            pq('write->read[symbol,%d bytes,first=%s]' % (n, ('0x%02x' % f) + ('(%s)' % chr(f) if chr(f).isalnum() else '')), 1, n, first=f,
+               backends=('cadical',) if tier == 'quick' and f not in (0x2b, 0x2d) else ('cadical', 'kissat'))
+    # strings and characters: the text starts with a fixed delimiter, every byte is free; hex escapes go through the real
+    # sexp_read_number (radix 16), whose float / ratio / complex / bignum continuations must stay unreachable
+    nc = [c for c in NUMCUTS if c != 'sexp_read_number']
+    for n in ((1,) if tier == 'quick' else (1, 2)):
+        pq('write->read[string,%d bytes]' % n, 2, n, numcuts=nc, backends=('cadical', 'kissat'), extra_us={'sexp_read_number': 1})
+    return qs
+
+
+def _decode_queries(tier):
     return [Query(name=nm, harness='C08_rw.c', units=UNITS, unit_defs=UD, defs={'PART': part}, unwind=6, unwindset={'strlen.0': 6},
                   remove_bodies=EXC, cap=300, backends=['cadical', 'minisat', 'kissat'], functions=FUNCTIONS)
             for part, nm in ((1, 'char-literal decode[all non-ASCII scalar values: decode(encode(c)) == c]'),
@@ -16,7 +59,15 @@ def queries(tier):
 
 
 BOUNDS = {'chars': 'all scalar values 0x80..0x10FFFF minus surrogates (21 free bits), all four UTF-8 width classes in one query',
-          'hostile_input': '4 free bytes + NUL'}
-ASSUMPTIONS = R_ASSUME
-OUTSIDE = ['flonum printing/reading (libc snprintf/strtod: no CBMC model)', 'symbol/string/number token round trips through string ports (port layer not encoded in this tier)',
-           'datum labels', 'the Scheme (srfi 38) reader/writer pair and therefore the "both pairs agree" half']
+          'hostile_input': '4 free bytes + NUL',
+          'symbols': 'names of 2 bytes (3 thorough): first byte one constant per query (15 classes quick / 45 thorough), the other bytes free (non-NUL); '
+                     'text followed by a blank; in-memory ports of 12-20 bytes',
+          'strings': '1 free byte (2 thorough), incl. every escape the writer emits (named, \\xHH;), read back through the real sexp_read_string/sexp_read_number(16)'}
+ASSUMPTIONS = R_ASSUME + ['ports are in-memory buffers built by the harness (buffer never fills: sexp_buffered_flush is cut and proved unreachable); the input port is closed, so the end of the buffer is EOF',
+                          'sexp_intern is a content-addressed model (equal names <=> same object); the real symbol table is not the subject',
+                          'for symbols, number syntax (sexp_read_number and its float/ratio/complex/bignum continuations) has assert-false bodies: the solver proves the reader never takes a written symbol for a number',
+                          'a symbol whose first byte is a delimiter / prefix character (blank, # ; \' ( ) " , ` { } |, DEL) must be written |quoted| (asserted directly; the reader is run on the quoted form)',
+                          "isspace() etc.: glibc's C-locale table as a constant (libc_models.c)"]
+OUTSIDE = ['flonum printing/reading (libc snprintf/strtod: no CBMC model)', 'character names and #\\x literals through the ports (no verdict within the cap: 9-way strcmp dispatch)',
+           'numbers through the ports (digit loops; bignum text I/O)', 'lists/vectors/datum labels', 'names longer than 3 bytes, strings longer than 2 bytes, text followed by EOF rather than a delimiter',
+           'the Scheme (srfi 38) reader/writer pair and therefore the "both pairs agree" half']
